@@ -1,5 +1,6 @@
 import Pocket.Thm.C19
 import Pocket.Lemmas.ParseWF
+import Pocket.Lemmas.RoundTrip
 /-
 C02 — the binary form is canonical; the round trip is lossless.
 
@@ -9,6 +10,14 @@ produces are *exactly* the bytes `Event::from_parts` produces from the values th
 determined by the seven values and not by the prior contents of the buffer
 (`canonical_any_buffer`).  Texts denoting the same event therefore give byte-identical values as
 soon as the parser extracts the same values from them, which is the C01 correspondence.
+
+The round trip itself (`round_trip`): for EVERY event whose fields fit the format and whose strings
+are UTF-8 — all sizes, all tag shapes, every code point incl. the ones `as_json` escapes — `as_json`
+succeeds, and `from_json` of that text (with anything after it, into any large-enough buffer with
+any prior contents) consumes exactly the text and yields exactly the bytes of `from_parts`, whose
+accessors return the original event (`round_trip_values`).  Underneath: `json_unescape ∘ json_escape
+= id` (`unescape_escape_id`), hex and decimal fields read back, the tags array reads back as the
+tag section.  Consequently escaping is injective (`escape_injective`).
 -/
 namespace Pocket.C02
 open Pocket
@@ -53,5 +62,63 @@ theorem serialize_total_on_valid (e : EventRec) (h : tagsJson e.tags ≠ .panic)
   · split <;> simp_all
   · simp
   · contradiction
+
+/-- `json_unescape ∘ json_escape = id`: the escaped text of the UTF-8 encoding of any code points,
+followed by the closing quote and anything else, reads back as those bytes and the reader consumes
+exactly the escaped text -/
+theorem unescape_escape_id (cps : List Nat) (hc : ∀ c ∈ cps, c < 1114112) (rest : Bytes) (cap : Nat)
+    (hcap : (utf8Of cps).length ≤ cap) :
+    ∃ t, jsonEscape (utf8Of cps) = .ok t ∧
+      jsonUnescape (t ++ 34 :: rest) cap = .ok (t.length, utf8Of cps) :=
+  ⟨escText cps, jsonEscape_utf8 cps hc, jsonUnescape_escText cps hc rest cap hcap⟩
+
+/-- distinct UTF-8 strings have distinct escaped texts -/
+theorem escape_injective (a b : List Nat) (ha : ∀ c ∈ a, c < 1114112) (hb : ∀ c ∈ b, c < 1114112)
+    (ta tb : Bytes) (h1 : jsonEscape (utf8Of a) = .ok ta) (h2 : jsonEscape (utf8Of b) = .ok tb)
+    (h : ta = tb) : utf8Of a = utf8Of b := by
+  rw [jsonEscape_utf8 a ha] at h1
+  rw [jsonEscape_utf8 b hb] at h2
+  simp only [Outcome.ok.injEq] at h1 h2
+  exact escText_injective a b ha hb (by rw [h1, h2, h])
+
+/-- **the round trip**: `from_json (as_json e) = from_parts e`, byte for byte, consuming exactly
+the text, for every well-sized UTF-8 event, every trailing input and every sufficient buffer -/
+theorem round_trip (e : EventRec) (hs : EventSized e)
+    (hbid : ∀ b ∈ e.id, b < 256) (hbpk : ∀ b ∈ e.pubkey, b < 256) (hbsig : ∀ b ∈ e.sig, b < 256)
+    (hut : TagsUtf8 e.tags) (huc : IsUtf8 e.content) (rest buf : Bytes)
+    (hbuf : (encodeEvent e).length ≤ buf.length) :
+    ∃ txt, eventJson e = .ok txt ∧
+      parseEvent (txt ++ rest) buf =
+        .ok (txt.length, (encodeEvent e).length, encodeEvent e ++ buf.drop (encodeEvent e).length) := by
+  obtain ⟨txt, ht⟩ := eventJson_ok e hut huc
+  exact ⟨txt, ht, parseEvent_eventJson e hs hbid hbpk hbsig hut huc txt ht rest buf hbuf⟩
+
+/-- … and the accessors of the parsed value return the original event -/
+theorem round_trip_values (e : EventRec) (hs : EventSized e)
+    (hbid : ∀ b ∈ e.id, b < 256) (hbpk : ∀ b ∈ e.pubkey, b < 256) (hbsig : ∀ b ∈ e.sig, b < 256)
+    (hut : TagsUtf8 e.tags) (huc : IsUtf8 e.content) (rest buf : Bytes)
+    (hbuf : (encodeEvent e).length ≤ buf.length) :
+    ∃ txt c n out, eventJson e = .ok txt ∧ parseEvent (txt ++ rest) buf = .ok (c, n, out) ∧
+      c = txt.length ∧ eventDecode (out.take n) = .ok e := by
+  obtain ⟨txt, ht, hp⟩ := round_trip e hs hbid hbpk hbsig hut huc rest buf hbuf
+  refine ⟨txt, _, _, _, ht, hp, rfl, ?_⟩
+  rw [List.take_left' rfl]
+  exact eventDecode_encode e hs
+
+/-- the hypotheses are satisfiable by an event with a tag, an escape-needing content and non-ASCII text -/
+example : ∃ e : EventRec, EventSized e ∧ TagsUtf8 e.tags ∧ IsUtf8 e.content ∧ e.content ≠ [] ∧ e.tags ≠ [] := by
+  refine ⟨{ id := List.replicate 32 1, pubkey := List.replicate 32 2, sig := List.replicate 64 3, kind := 1,
+            createdAt := 5, tags := [[utf8Of [101], utf8Of [233, 10]]], content := utf8Of [34, 92, 8364, 128512] }, ?_, ?_, ?_, ?_, ?_⟩
+  · constructor <;> decide
+  · intro t ht s hs
+    simp only [List.mem_singleton] at ht
+    subst ht
+    simp only [List.mem_cons, List.not_mem_nil, or_false] at hs
+    rcases hs with rfl | rfl
+    · exact ⟨[101], by decide, rfl⟩
+    · exact ⟨[233, 10], by decide, rfl⟩
+  · exact ⟨[34, 92, 8364, 128512], by decide, rfl⟩
+  · decide
+  · decide
 
 end Pocket.C02
